@@ -467,6 +467,8 @@ def check_loopback(case: Dict[str, Any]) -> Outcome:
     wire = _out_msg(msg)
     is_sse = beh.get("ctype", "json").startswith("sse")
     body, put_in, _unterminated = build_body(beh.get("body", {"kind": "result"}), wire, is_sse)
+    if beh["status"] in (204, 304):
+        body = b""  # HTTP: these statuses carry no body; a real client never reads one (the mock transport can, a socket cannot)
     cuts = sorted(set(c % max(1, len(body)) for c in case.get("cuts", []) if len(body) > 1))
     pos = [0] + [c for c in cuts if c] + [len(body)]
     segs = [body[a:b] for a, b in zip(pos, pos[1:]) if b > a]
